@@ -106,3 +106,54 @@ Proof.
   apply inb_length in Hin. rewrite Hin, remove_nth_length by exact Hd. lia.
 Qed.
 End PTR.
+
+(* ---------------------------------------------------------------- round 6: the axis bookkeeping of tensor_ring_als (Model/Errors.v: subchain_axes,
+   tr_idx).  The transposition by tr_idx puts the modes of the sub-chain in INCREASING order (the row order of matricize(tensor, [n != dim], [dim]))
+   followed by the bond r_dim and then the bond r_{dim+1}: the column index of the design matrix is the row-major pair (a, b) with a < r_dim,
+   b < r_{dim+1} - the same pair that indexes the rows of `sol` in reshape(sol, (rank[dim], rank[dim+1], shape[dim])), so that
+   (design_mat @ sol)[idx', i] = sum_{a,b} subchain[b, idx', a] * core_dim[a, i, b], the ls_prediction of Model/Errors.v.  Every order, every mode. *)
+Lemma remove_nth_seq : forall d a n, d < n -> remove_nth d (seq a n) = seq a d ++ seq (a + S d) (n - d - 1).
+Proof.
+  induction d as [|d IH]; intros a n Hd.
+  - destruct n as [|n]; [lia|]. cbn [seq remove_nth app]. replace (a + 1) with (S a) by lia. replace (S n - 0 - 1) with n by lia. reflexivity.
+  - destruct n as [|n]; [lia|]. cbn [seq remove_nth app]. rewrite IH by lia.
+    replace (S a + S d) with (a + S (S d)) by lia. replace (n - d - 1) with (S n - S d - 1) by lia. reflexivity.
+Qed.
+Lemma nth_subchain_mid N dim j : 1 <= j <= N - 1 -> nth j (subchain_axes N dim) (ABond 0) = AMode ((dim + j) mod N).
+Proof.
+  intros Hj. unfold subchain_axes. destruct j as [|j]; [lia|]. cbn [nth].
+  set (g := fun j0 => AMode ((dim + j0) mod N)).
+  rewrite app_nth1 by (rewrite map_length, seq_length; lia).
+  rewrite (nth_indep _ (ABond 0) (g 0)) by (rewrite map_length, seq_length; lia).
+  rewrite map_nth, seq_nth by lia. reflexivity.
+Qed.
+Lemma nth_subchain_last N dim : 0 < N -> nth N (subchain_axes N dim) (ABond 0) = ABond dim.
+Proof.
+  intros HN. unfold subchain_axes. destruct N as [|N]; [lia|]. cbn [nth].
+  rewrite app_nth2 by (rewrite map_length, seq_length; lia). rewrite map_length, seq_length.
+  replace (N - (S N - 1)) with 0 by lia. reflexivity.
+Qed.
+Lemma map_seq_shift {A} (f g : nat -> A) : forall n a b, (forall i, i < n -> f (a + i) = g (b + i)) -> map f (seq a n) = map g (seq b n).
+Proof.
+  induction n as [|n IH]; intros a b H; [reflexivity|]. cbn [seq map]. f_equal.
+  - specialize (H 0). rewrite !Nat.add_0_r in H. apply H. lia.
+  - apply IH. intros i Hi. specialize (H (S i)). rewrite !Nat.add_succ_r in H. cbn. apply H. lia.
+Qed.
+Theorem tr_idx_sorts_modes N dim : dim < N ->
+  permute_axes (subchain_axes N dim) (tr_idx N dim) = map AMode (remove_nth dim (seq 0 N)) ++ [ABond dim; ABond (dim + 1)].
+Proof.
+  intros Hd. unfold permute_axes, tr_idx. rewrite !map_app, !map_map. rewrite remove_nth_seq by exact Hd. rewrite map_app. rewrite <- app_assoc. f_equal; [|f_equal].
+  - apply map_ext_in. intros i Hi. apply in_seq in Hi. rewrite nth_subchain_mid by lia.
+    replace (dim + (i + N - dim)) with (i + 1 * N) by lia. rewrite Nat.mod_add by lia. rewrite Nat.mod_small by lia. reflexivity.
+  - apply map_seq_shift. intros i Hi. cbn [Nat.add]. rewrite nth_subchain_mid by lia. rewrite Nat.mod_small by lia. f_equal. lia.
+  - cbn [map]. rewrite nth_subchain_last by lia. reflexivity.
+Qed.
+
+Lemma tr_idx_length N dim : dim < N -> length (tr_idx N dim) = N + 1.
+Proof. intros Hd. unfold tr_idx. rewrite !app_length, !map_length, !seq_length. cbn [length]. lia. Qed.
+Lemma tr_design_sol_pairing ra rb a b : ravel [ra; rb] [a; b] = a * rb + b.
+Proof. cbn. lia. Qed.
+Theorem tr_idx_sorts_and_length N dim : dim < N ->
+  permute_axes (subchain_axes N dim) (tr_idx N dim) = map AMode (remove_nth dim (seq 0 N)) ++ [ABond dim; ABond (dim + 1)] /\
+  length (tr_idx N dim) = N + 1.
+Proof. intros H. split; [now apply tr_idx_sorts_modes | now apply tr_idx_length]. Qed.
